@@ -263,7 +263,8 @@ def R3_per_query(ctx):
 WHITELIST = re.compile(
     r"(^rayon::slice::ParallelSlice::par_chunks$|IntoParallelRefIterator<'data>>::par_iter$|^rayon::iter::ParallelIterator::(map|unzip|collect|flatten|flat_map)(\{.*\})?$"
     r"|^std::slice::<impl \[T\]>::(iter|iter_mut)$|IntoIterator>::into_iter(\{.*\})?$|^std::iter::Iterator::(map|flatten|collect|chain|fold|for_each|cloned|copied)(\{.*\})?$|Iterator>::(next|fold|map|collect|flatten|chain)(\{.*\})?$"
-    r"|^itertools::Itertools::partition_map(\{.*\})?$|^std::iter::empty(\{.*\})?$|^std::vec::Vec::<T, A>::(len|is_empty|push)$)"
+    r"|^itertools::Itertools::partition_map(\{.*\})?$|^std::iter::empty(\{.*\})?$|^std::vec::Vec::<T, A>::(len|is_empty|push)$"
+    r"|^std::iter::Iterator::(sum|count|max|min|product|any|all|try_for_each|for_each)(\{.*\})?$|Iterator>::(sum|count|try_for_each|for_each|any|all)(\{.*\})?$)"
 )
 ADAPTOR = re.compile(r"(^rayon::(slice|iter)::|Parallel\w*(<[^>]*>)?>?::\w+|^std::iter::|Iterator(<[^>]*>)?>?::\w+(\{.*\})?$|^itertools::|^std::slice::<impl \[T\]>::(iter|iter_mut|chunks\w*|windows|split\w*|rchunks\w*)$|IntoIterator>::into_iter)")
 
@@ -594,6 +595,12 @@ def R4_input_plugins(ctx):
         otm = Terms(ob)
         for r in early:
             pe = False
+            # explicit spelling: `if let Err(e) = op(q) { return Err(package_error(q, e)) }`
+            rv_ = nosite(deep_strip(r.ret))
+            nxs_ = [nosite(deep_strip(v)) for _, k, v in r.sites if k and itm(k, "next")]
+            for x in subterms(rv_):
+                if x[0] == "call" and x[1].startswith(IN + "package_error") and nxs_ and unmut_all(x[2][0]) == unmut_all(nxs_[0]):
+                    pe = True
             for c in ob.calls():
                 if (c.callee or "").endswith("Result::<T, E>::map_err"):
                     cl = nosite(deep_strip(otm.operand(c.args[1], c.bb)))
